@@ -67,6 +67,25 @@ SRC_THEOREMS = {
 }
 
 
+TRANSFERS = {   # module -> (classes it needs, theorems)
+    'TransferFrame': (['Checksum', 'UbxFrame'], ['src_to_bytes_is_wire', 'src_checksum_is_fletcher']),
+    'TransferUbx': (['UbxParser', 'Checksum'], ['src_process_chunks', 'src_parser_refines_scanner']),
+    'TransferNmea': (['NmeaParser'], ['src_nmea_counts_exactly']),
+}
+
+
+def audit_module(mod, names, tag):
+    path = os.path.join(LEAN, f'.audit_src_{tag}.lean')
+    with open(path, 'w') as f:
+        f.write(f'import UbxModel.Proofs.SrcEquiv.{mod}\n' + ''.join(f'#print axioms SrcEquiv.{n}\n' for n in names))
+    try:
+        a = sh(['lake', 'env', 'lean', path], cwd=LEAN, timeout=300)
+    finally:
+        os.remove(path)
+    axs = {x.strip() for m in re.finditer(r"depends on axioms: \[([^\]]*)\]", a.stdout) for x in m.group(1).split(',') if x.strip()}
+    return len(re.findall(r"'SrcEquiv\.", a.stdout)), axs
+
+
 def source_tie(prop):
     """for the classes the property rests on: is the definition generated from the source proved equal to the model?"""
     classes = plan.PROPS[prop].get('source_tie', [])
@@ -82,19 +101,19 @@ def source_tie(prop):
         if not ok:
             res[c] = 'translated, but the equivalence with the model no longer checks: ' + ' | '.join(errs)[:300]
             continue
-        path = os.path.join(LEAN, f'.audit_src_{prop}_{c}.lean')
-        with open(path, 'w') as f:
-            f.write(f'import UbxModel.Proofs.SrcEquiv.{c}\n' + ''.join(f'#print axioms SrcEquiv.{n}\n' for n in SRC_THEOREMS[c]))
-        try:
-            a = sh(['lake', 'env', 'lean', path], cwd=LEAN, timeout=300)
-        finally:
-            os.remove(path)
-        axs = {x.strip() for m in re.finditer(r"depends on axioms: \[([^\]]*)\]", a.stdout) for x in m.group(1).split(',') if x.strip()}
-        n = len(re.findall(r"'SrcEquiv\.", a.stdout))
+        n, axs = audit_module(c, SRC_THEOREMS[c], f'{prop}_{c}')
         if n != len(SRC_THEOREMS[c]) or not axs <= ALLOWED_AXIOMS:
             res[c] = f'translated, equivalence built, but the audit covered {n} of {len(SRC_THEOREMS[c])} theorems / axioms {sorted(axs)}'
         else:
             res[c] = f'source translated on this run and proved equal to the model ({len(SRC_THEOREMS[c])} theorems: ' + ', '.join(SRC_THEOREMS[c]) + ')'
+    # the headline theorems restated for the generated definitions
+    for mod, (needs, names) in TRANSFERS.items():
+        if mod in plan.PROPS[prop].get('source_transfer', []) and all(res.get(c, '').startswith('source translated') for c in needs if c in res):
+            ok, errs = lake_build([f'UbxModel.Proofs.SrcEquiv.{mod}'], timeout=600)
+            if ok:
+                n, axs = audit_module(mod, names, f'{prop}_{mod}')
+                ok = n == len(names) and axs <= ALLOWED_AXIOMS
+            res['theorems about the generated definitions (' + mod + ')'] = (', '.join(names) + ': proved') if ok else 'do not check on this tree'
     return res
 
 
@@ -452,7 +471,7 @@ def main():
         comps = sorted({c['component'] for c in disagreements})
         broken.append(f'correspondence: model and code disagree on {len(disagreements)} of {len(cases)} cases (components {", ".join(comps)})')
     extra = None
-    src_doubt = [c for c, v in info.get('source_tie', {}).items() if not v.startswith('source translated')]
+    src_doubt = [c for c, v in info.get('source_tie', {}).items() if not v.startswith('source translated') and not v.endswith(': proved')]
     if src_doubt and not broken and not failures:
         # the source no longer matches the model syntactically: not a verdict, but a reason to look harder
         more, errs2, n2 = explore(prop, tier, seed + 104729, False, scale=2)
@@ -536,7 +555,7 @@ def setup():
     if t:
         print(t, file=sys.stderr)
     print('source-level translation:', translate_source())
-    lake_build([f'UbxModel.Proofs.SrcEquiv.{c}' for c in SRC_THEOREMS])       # pre-built when it applies; not required
+    lake_build([f'UbxModel.Proofs.SrcEquiv.{c}' for c in list(SRC_THEOREMS) + list(TRANSFERS)])       # pre-built when it applies; not required
     ok, errs = lake_build(['UbxModel', 'driver', 'specdriver'])
     if not ok:
         print('setup: lake build failed: ' + ' | '.join(errs), file=sys.stderr)
